@@ -104,7 +104,7 @@ fn shape_contract(shape: Shape) {
     let set = e.match_from(hops, p);
     let q: usize = kani::any();
     kani::assume(q <= m + 1);
-    assert!(set.contains(&q) == in_lang(shape, &a, &b, hops, p, q), "C16.hp-match-from: match_from(hops, p) differs from { q | hops[p..q] in L(e) }");
+    assert!(set.contains(&q) == in_lang(shape, &a, &b, hops, p, q), "C16.hp-match-from: match_from(hops, p) differs from the set of q with hops[p..q] in L(e)");
     kani::cover!(set.contains(&q) && q > p, "non-empty match");
     kani::cover!(!set.contains(&q) && q > p && q <= m, "no match at q");
     let pol = HopPatternPolicy(vec![e]);
